@@ -2,6 +2,7 @@
 package c10
 
 import (
+	"encoding/json"
 	"fmt"
 	"slices"
 	"sort"
@@ -72,6 +73,49 @@ func check(c kvh.Case) (pbt.Info, error) {
 			}
 			m.Clear()
 			box.Clear()
+		case "load":
+			// FromJSON of the object {K+i: V+(i mod S)}, i < N — several keys may carry one
+			// value; for each distinct value exactly one of its keys survives (which one
+			// depends on Go's map order), and the map must stay one-to-one
+			doc := map[int]int{}
+			for j := 0; j < op.N; j++ {
+				doc[op.K+j] = op.V + j%max(op.S, 1)
+			}
+			data, _ := json.Marshal(doc)
+			var err error
+			if box.HashBidi != nil {
+				err = box.HashBidi.FromJSON(data)
+			} else {
+				err = box.TreeBidi.FromJSON(data)
+			}
+			if err != nil {
+				return fail(i, op, "FromJSON(%s) failed: %v", data, err)
+			}
+			for k, v := range m.Fwd {
+				displaced[[2]int{k, v}] = true
+			}
+			m.Clear()
+			byValue := map[int]bool{}
+			for _, v := range doc {
+				byValue[v] = true
+			}
+			keys := box.Keys()
+			slices.Sort(keys)
+			for _, k := range keys {
+				v, ok := box.Get(k)
+				if dv, in := doc[k]; !ok || !in || dv != v {
+					return fail(i, op, "after FromJSON(%s) the map holds %d:%d, which the document does not denote", data, k, v)
+				}
+				if _, dup := m.Inv[v]; dup {
+					return fail(i, op, "after FromJSON(%s) two keys carry the value %d", data, v)
+				}
+				m.Put(k, v)
+				delete(displaced, [2]int{k, v})
+			}
+			if len(m.Fwd) != len(byValue) {
+				return fail(i, op, "after FromJSON(%s) the map holds %d pairs, the document has %d distinct values", data, len(m.Fwd), len(byValue))
+			}
+			lo, hi = min(lo, op.K, op.V), max(hi, op.K+op.N, op.V+op.S)
 		case "get", "probe":
 			continue
 		default:
@@ -272,6 +316,77 @@ func genCoarse(t *rapid.T) kvh.Case {
 	return c
 }
 
+// checkSoak is the oracle for the soak target: the two-map model, compared on
+// the touched key/value and their neighbours after every step and completely
+// (Keys, Values, every pair in both directions) every 16th step.
+func checkSoak(c kvh.Case) (pbt.Info, error) {
+	var info pbt.Info
+	box := kvh.New(c)
+	m := kvh.NewBidiModel()
+	removals := 0
+	for i, op := range c.Ops {
+		var oldV int
+		hadOld := false
+		switch op.O {
+		case "put":
+			oldV, hadOld = m.Fwd[op.K]
+			m.Put(op.K, op.V)
+			box.Put(op.K, op.V)
+		case "rem":
+			oldV, hadOld = m.Fwd[op.K]
+			if m.Remove(op.K) {
+				removals++
+			}
+			box.Remove(op.K)
+		}
+		fail := func(format string, a ...any) (pbt.Info, error) {
+			return info, fmt.Errorf("%s soak step %d %s(%d,%d): %s", c.Kind, i, op.O, op.K, op.V, fmt.Sprintf(format, a...))
+		}
+		if box.Size() != len(m.Fwd) {
+			return fail("Size()=%d, model has %d pairs", box.Size(), len(m.Fwd))
+		}
+		probesV := []int{op.V}
+		if hadOld {
+			probesV = append(probesV, oldV)
+		}
+		for _, k := range []int{op.K, op.K + 1} {
+			wv, wok := m.Fwd[k]
+			if v, ok := box.Get(k); ok != wok || v != wv {
+				return fail("Get(%d) = (%d,%v), want (%d,%v)", k, v, ok, wv, wok)
+			}
+		}
+		for _, v := range probesV {
+			wk, wok := m.Inv[v]
+			if k, ok := box.GetKey(v); ok != wok || k != wk {
+				return fail("GetKey(%d) = (%d,%v), want (%d,%v) (a displaced value must not be found)", v, k, ok, wk, wok)
+			}
+		}
+		if i%16 == 0 || i == len(c.Ops)-1 {
+			keys, vals := box.Keys(), box.Values()
+			if len(keys) != len(m.Fwd) || len(vals) != len(m.Inv) {
+				return fail("len(Keys())=%d len(Values())=%d, model has %d pairs", len(keys), len(vals), len(m.Fwd))
+			}
+			for _, k := range keys {
+				v, ok := box.Get(k)
+				if !ok || m.Fwd[k] != v {
+					return fail("listed key %d maps to (%d,%v), model %d", k, v, ok, m.Fwd[k])
+				}
+				if bk, ok := box.GetKey(v); !ok || bk != k {
+					return fail("Get(%d)=%d but GetKey(%d)=(%d,%v)", k, v, v, bk, ok)
+				}
+			}
+			for _, v := range vals {
+				if _, ok := m.Inv[v]; !ok {
+					return fail("Values() lists %d, which no key maps to", v)
+				}
+			}
+		}
+	}
+	info.NonTrivial = len(c.Ops) >= 300 && removals > 0
+	info.Label("soak")
+	return info, nil
+}
+
 func gen(kind string) func(t *rapid.T) kvh.Case {
 	return func(t *rapid.T) kvh.Case {
 		c := kvh.Case{Kind: kind}
@@ -285,7 +400,7 @@ func gen(kind string) func(t *rapid.T) kvh.Case {
 			n = rapid.IntRange(30, 200).Draw(t, "nlong") // dozens of pairs: deeper trees, long histories
 		}
 		for i := 0; i < n; i++ {
-			switch dom.Weighted(t, "op", 1, 60, 25, 2) {
+			switch dom.Weighted(t, "op", 1, 60, 25, 2, 4) {
 			case 0:
 			case 1:
 				c.Ops = append(c.Ops, kvh.Op{O: "put", K: rapid.IntRange(0, hi).Draw(t, "k"), V: rapid.IntRange(0, hi).Draw(t, "v")})
@@ -293,6 +408,35 @@ func gen(kind string) func(t *rapid.T) kvh.Case {
 				c.Ops = append(c.Ops, kvh.Op{O: "rem", K: rapid.IntRange(0, hi).Draw(t, "k")})
 			case 3:
 				c.Ops = append(c.Ops, kvh.Op{O: "clear"})
+			case 4:
+				c.Ops = append(c.Ops, kvh.Op{O: "load", K: rapid.IntRange(0, hi).Draw(t, "k"), V: rapid.IntRange(0, hi).Draw(t, "v"),
+					N: rapid.IntRange(0, 6).Draw(t, "entries"), S: rapid.IntRange(1, 4).Draw(t, "distinct-values")})
+			}
+		}
+		return c
+	}
+}
+
+// genSoak: one map instance driven for many hundreds of operations (counters,
+// caches and rebuild thresholds that only long lives reach): a few keys are
+// rebound to ever new values, interleaved with removals.
+func genSoak(kind string) func(t *rapid.T) kvh.Case {
+	return func(t *rapid.T) kvh.Case {
+		c := kvh.Case{Kind: kind}
+		if kind == kvh.TreeBidi {
+			c.Cmp, c.VCmp = dom.Nat, dom.Rev
+		}
+		keys := rapid.IntRange(2, 9).Draw(t, "keys")
+		n := rapid.IntRange(300, 900).Draw(t, "n")
+		pattern := rapid.SliceOfN(rapid.IntRange(0, 9), 4, 12).Draw(t, "pattern")
+		for i := 0; i < n; i++ {
+			switch pattern[i%len(pattern)] {
+			case 0:
+				c.Ops = append(c.Ops, kvh.Op{O: "rem", K: i % keys})
+			case 1: // an old value again: value collision
+				c.Ops = append(c.Ops, kvh.Op{O: "put", K: (i * 7) % keys, V: 10 + (i*3)%keys})
+			default: // rebind a key to a fresh value
+				c.Ops = append(c.Ops, kvh.Op{O: "put", K: i % keys, V: 100 + i})
 			}
 		}
 		return c
@@ -304,6 +448,9 @@ func TestGenerated(t *testing.T) {
 		pbt.Run(t, pbt.Target[kvh.Case]{Name: kind, Checks: 40000, Gen: gen(kind), Check: check})
 	}
 	pbt.Run(t, pbt.Target[kvh.Case]{Name: "treebidimap/many-to-one-comparators", Checks: 20000, Gen: genCoarse, Check: checkCoarse})
+	for _, kind := range []string{kvh.HashBidi, kvh.TreeBidi} {
+		pbt.Run(t, pbt.Target[kvh.Case]{Name: kind + "/soak", Checks: 40, Gen: genSoak(kind), Check: checkSoak})
+	}
 }
 
 // TestExhaustive: every sequence of a fixed length over Put(k,v), Remove(k),
